@@ -149,7 +149,7 @@ mutual
     | "neg" => pure (.neg (← t "t") al)
     | "arith" => pure (.arith (← dArith (← (fld j "op").getStr?)) (← t "l") (← t "r") al)
     | "basic" => pure (.basic (← fStr j "cmp") (← t "l") (← t "r") al)
-    | "complex" => pure (.complex (← dBoolOp (← (fld j "op").getStr?)) (← t "l") (← t "r"))
+    | "complex" => pure (.complex (← dBoolOp (← (fld j "op").getStr?)) (← t "l") (← t "r") al)
     | "not" => pure (.not (← t "t") al)
     | "isin" => pure (.isin (← t "t") (← t "container") (← fBool j "negated") al)
     | "between" => pure (.between (← t "t") (← t "lo") (← t "hi") al)
